@@ -680,18 +680,40 @@ def _me(t):
 # ---------------------------------------------------------------------------------------
 # running one described case
 # ---------------------------------------------------------------------------------------
+def _float_ok(q):
+    return abs(q.numerator).bit_length() <= 53 and -1000 < -(q.denominator.bit_length() - 1) and q.denominator.bit_length() < 1000
+
+
 def _endpoint(mp, x, form):
-    """build an endpoint object from its description in a given form ('mpf','py','mpc')"""
+    """build an endpoint object from its exact description in a given *operand type*:
+    'mpf' | 'py' (int or float when exact) | 'pyfloat' / 'pycomplex' (Python float / complex objects, exact value of the double) |
+    'mpc' | 'str' (decimal string, only where the short repr is the exact value) | 'mixed' (type chosen per endpoint from its value)"""
     if isinstance(x, str):
         return mp.inf if x in ('inf', '+inf') else mp.ninf
-    if isinstance(x[0], (list, tuple)):
+    cplx = isinstance(x[0], (list, tuple))
+    if form == 'mixed':
+        h = (x[0][0] if cplx else x[0]) % 5
+        form = (['pycomplex', 'mpc', 'pycomplex', 'mpc', 'pycomplex'] if cplx else ['pyfloat', 'mpf', 'py', 'str', 'mpc'])[h]
+    if cplx:
+        re, im = Q.dy(x[0]), Q.dy(x[1])
+        if form in ('pycomplex', 'pyfloat', 'py') and _float_ok(re) and _float_ok(im):
+            return complex(float(re), float(im))
         return Q.mkc(mp, x)
     q = Q.dy(x)
     if form == 'py':
         if q.denominator == 1:
             return int(q)
-        if abs(q.numerator).bit_length() <= 53 and q.denominator.bit_length() < 1000:
+        if _float_ok(q):
             return float(q)
+    if form in ('pyfloat', 'pycomplex') and _float_ok(q):
+        return float(q) if form == 'pyfloat' else complex(float(q), 0.0)
+    if form == 'str' and _float_ok(q):
+        t = repr(float(q))
+        try:
+            if F(t) == q and 'e' not in t:
+                return t
+        except ValueError:
+            pass
     if form == 'mpc':
         return mp.mpc(Q.mk(mp, q), 0)
     return Q.mk(mp, q)
@@ -789,6 +811,7 @@ def run_desc(mp, rec, desc, hook=None):
     else:
         f = lambda x, y, z: trees[0](x) * trees[1](y) * trees[2](z)
     form = desc.get('form', 'mpf')
+    rec.event('limit operand type: ' + form)
 
     def intervals(ptlists, tup=False):
         out = []
@@ -979,6 +1002,21 @@ def rd(r, lo, hi, bits=4):
     return [r.randint(int(lo * (1 << bits)), int(hi * (1 << bits))), -bits]
 
 
+_F53 = [False]       # generator switch: endpoints with a full 53-bit mantissa (sums / differences inexact in double arithmetic)
+
+
+def rd_end(r, lo, hi, bits):
+    """an interval endpoint: few-bit dyadic, or (switch on) a double with a full 53-bit mantissa, exactly as [n, e]"""
+    if not _F53[0]:
+        return rd(r, lo, hi, bits)
+    while True:
+        v = r.uniform(lo, hi)
+        if abs(v) > 1e-3:
+            break
+    m, e = math.frexp(v)
+    return [int(m * (1 << 53)) | 1, e - 53]
+
+
 def rd_nz(r, lo, hi, bits=4):
     while True:
         d = rd(r, lo, hi, bits)
@@ -988,7 +1026,7 @@ def rd_nz(r, lo, hi, bits=4):
 
 def _interval(r, maxlen=16, span=8, bits=6, minlen=F(1, 16)):
     while True:
-        a, b = rd(r, -span, span, bits), rd(r, -span, span, bits)
+        a, b = rd_end(r, -span, span, bits), rd_end(r, -span, span, bits)
         L = abs(Q.dy(a) - Q.dy(b))
         if minlen <= L <= maxlen:
             return (a, b) if Q.dy(a) < Q.dy(b) else (b, a)
@@ -996,8 +1034,8 @@ def _interval(r, maxlen=16, span=8, bits=6, minlen=F(1, 16)):
 
 def _cinterval(r, span=3, bits=4):
     while True:
-        a = [rd(r, -span, span, bits), rd(r, -span, span, bits)]
-        b = [rd(r, -span, span, bits), rd(r, -span, span, bits)]
+        a = [rd_end(r, -span, span, bits), rd_end(r, -span, span, bits)]
+        b = [rd_end(r, -span, span, bits), rd_end(r, -span, span, bits)]
         L2 = Q.cabs2(Q.csub(pt(a), pt(b)))
         if F(1, 64) <= L2 <= 36 and (a[1][0] or b[1][0]):
             return a, b
@@ -1022,6 +1060,10 @@ def _split_points(r, a, b, n=None):
     ca, cb = pt(a), pt(b)
     for t in ts:
         z = Q.cadd(ca, Q.cscale(Q.csub(cb, ca), t))
+        if _F53[0]:
+            # interior points that are themselves doubles (nearest double of the point on the segment; the integrands used
+            # with complex paths are entire, so the path need not stay on the straight segment)
+            z = (F(float(z[0])), F(float(z[1])))
         out.append(_desc_of(z, complex_=isinstance(a[0], (list, tuple))))
     out.append(b)
     return out
@@ -1049,12 +1091,34 @@ CELLS = [
     'gauss/whole', 'gauss/half', 'pe.exp/inf', 'pe.expcos/inf', 'inf/gl',
     'dim2/sep', 'dim2/cos2', 'dim2/poly', 'dim3/poly', 'dim3/exp3', 'dim2/inf',
     'cacheseq/ts', 'cacheseq/gl', 'unit/interval',
+    # operand types of the limits: Python float / complex objects with full 53-bit mantissas (exact value of the double is
+    # the mathematical limit), mixed types within one interval, float split points; always on fresh (cold-cache) intervals
+    'float53/poly', 'float53/pe', 'float53/complex', 'float53/halfinf', 'float53/dim2', 'mixed/poly', 'mixed/pe',
 ]
-HEAVY = {'dim2/sep': 53, 'dim2/cos2': 53, 'dim2/poly': 64, 'dim3/poly': 32, 'dim3/exp3': 30, 'dim2/inf': 35}   # precision caps
+HEAVY = {'float53/dim2': 100, 'dim2/sep': 53, 'dim2/cos2': 53, 'dim2/poly': 64, 'dim3/poly': 32, 'dim3/exp3': 30, 'dim2/inf': 35}   # precision caps
+
+
+F53_BASE = {'float53/poly': ['poly/real', 'poly/multipoint'], 'float53/pe': ['pe.exp/real', 'pe.cos/real', 'pe.expcos/real', 'trigprod/real'],
+            'float53/complex': ['poly/complex', 'pe.cexp/complex', 'pe.exp/complex'], 'float53/halfinf': ['pe.exp/inf', 'gauss/half'],
+            'float53/dim2': ['dim2/sep'], 'mixed/poly': ['poly/multipoint', 'poly/real'], 'mixed/pe': ['pe.sin/real', 'pe.cexp/complex']}
 
 
 def gen_case(r, cell, p, idx):
     """-> case description (JSON-able) for the cell at precision p"""
+    if cell in F53_BASE:
+        base = r.choice(F53_BASE[cell])
+        if p < 80:                       # a 53-bit contamination is only visible above ~65 bits
+            p = r.choice([80, 100, 120, 150])
+        if base in HEAVY:
+            p = 80
+        _F53[0] = True
+        try:
+            desc = gen_case(r, base, p, idx)
+        finally:
+            _F53[0] = False
+        desc['cell'] = cell
+        desc['form'] = 'mixed' if cell.startswith('mixed') else ('pycomplex' if 'complex' in cell else 'pyfloat')
+        return desc
     rule = 'ts' if (idx // len(CELLS)) % 2 == 0 else 'gl'
     api = ['string', 'short', 'class', 'default'][(idx // (2 * len(CELLS))) % 4]
     if api == 'default' and rule == 'gl':
@@ -1092,7 +1156,7 @@ def gen_case(r, cell, p, idx):
         if kind == 'inf':
             c = rd(r, 0.25, 4, 3)
             k = [-c[0], c[1]]
-            a = rd(r, -3, 6, 3)
+            a = rd_end(r, -3, 6, 3)
             ivs = [a, 'inf']
             if r.random() < 0.3:           # mirrored: growth rate towards -inf end is decay
                 k = c
@@ -1177,7 +1241,7 @@ def gen_case(r, cell, p, idx):
                 sq = math.sqrt(float(Q.dy(c)))
                 n, m, w = 0, [0, 0], (rd_nz(r, -sq, sq, 3) if r.random() < 0.65 else rd_nz(r, -4, 4, 3))
         else:
-            e = rd(r, -3, 3, 3)
+            e = rd_end(r, -3, 3, 3)
             ivs = [e, 'inf'] if r.random() < 0.6 else ['-inf', e]
         desc['rule'] = 'ts'
         desc['f'] = [{'fam': 'gauss', 'cc': c, 'n': n, 'm': m, 'w': w}]
@@ -1398,6 +1462,9 @@ def required(agg, tier):
     for var in ('reversed', 'split', 'alias', 'error'):
         if not any(k.endswith('/' + var) for k in cl):
             miss.append('metamorphic variant %s never run' % var)
+    for need in ('pyfloat', 'pycomplex', 'mixed'):
+        if not agg['events'].get('limit operand type: ' + need):
+            miss.append('no integral with limits of operand type %s' % need)
     for d in ('dim2', 'dim3'):
         if not any('/%s/' % d in k for k in cl):
             miss.append('no %s integral' % d)
